@@ -21,6 +21,19 @@ fn main() {
     let code = match args[1].as_str() {
         "pipeline" => cmd_pipeline(&args[2..]),
         "challenger" => cmd_challenger(&args[2..]),
+        "scenarios" => {
+            // p3r scenarios --out result.json
+            let out = arg(&args[2..], "--out").expect("--out");
+            let res: Vec<Value> = p3r_verif_harness::scenarios::all().into_iter().map(|s| json!({
+                "id": s.id, "properties": s.properties, "what": s.what, "honest": s.honest, "forged": s.forged,
+                "accepted": s.accepted, "detail": s.detail})).collect();
+            std::fs::write(&out, serde_json::to_string_pretty(&json!({"scenarios": res})).unwrap()).unwrap();
+            0
+        }
+        "forge-demo" => {
+            p3r_verif_harness::forge::demo();
+            0
+        }
         "show" => {
             // p3r show < one replay record on stdin: print the real compiled circuit
             let mut line = String::new();
@@ -89,6 +102,7 @@ fn cmd_pipeline(args: &[String]) -> i32 {
     let samples = Mutex::new(Vec::<Value>::new());
     let c10_runs = Mutex::new(0u64);
     let vcs = Mutex::new(Vec::<VerdictCmp>::new());
+    let forge_all = Mutex::new(Vec::<pipeline::ForgeStats>::new());
     let distinct = Mutex::new(std::collections::HashSet::<String>::new());
     let packings_all: [(usize, usize, usize, usize); 4] = [(1, 1, 2, 1), (2, 3, 3, 8), (1, 2, 2, 1), (4, 4, 4, 16)];
 
@@ -96,7 +110,7 @@ fn cmd_pipeline(args: &[String]) -> i32 {
     let chunk = nlines.div_ceil(threads.max(1)).max(1);
     std::thread::scope(|sc| {
         for (ti, part) in lines.chunks(chunk).enumerate() {
-            let (agg, stats, errors, samples, c10_runs, distinct, vcs) = (&agg, &stats, &errors, &samples, &c10_runs, &distinct, &vcs);
+            let (agg, stats, errors, samples, c10_runs, distinct, vcs, forge_all) = (&agg, &stats, &errors, &samples, &c10_runs, &distinct, &vcs, &forge_all);
             let want = &want;
             sc.spawn(move || {
                 let mut st = Stats::default();
@@ -104,6 +118,7 @@ fn cmd_pipeline(args: &[String]) -> i32 {
                 let mut local_distinct = std::collections::HashSet::<String>::new();
                 let mut c10n = 0u64;
                 let mut vc = VerdictCmp::default();
+                let mut fstats = pipeline::ForgeStats::default();
                 for (li, line) in part.iter().enumerate() {
                     let rec: Rec = match serde_json::from_str(line) {
                         Ok(r) => r,
@@ -149,7 +164,12 @@ fn cmd_pipeline(args: &[String]) -> i32 {
                         verdict_cmp(&mut vc, "C03", rec.m03, local.len() > n0, &prog);
                     }
                     if want("C09") {
-                        pipeline::check_c09(&prog, &built, &mut st, &mut local);
+                        let n0 = local.len();
+                        pipeline::check_c09(&prog, &built, &mut rng, &mut st, &mut local);
+                        verdict_cmp(&mut vc, "C09", rec.m09, local.len() > n0, &prog);
+                    }
+                    if want("C04") && gidx % c10_every == 0 {
+                        pipeline::check_c04(&prog, &built, &mut rng, &mut fstats, 24, &mut local);
                     }
                     if want("C10") && gidx % c10_every == 0 {
                         c10n += pipeline::check_c10(&prog, &built, &mut rng, &packings_all[..c10_configs.min(4)], &mut local);
@@ -164,6 +184,7 @@ fn cmd_pipeline(args: &[String]) -> i32 {
                 }
                 stats.lock().unwrap().push(st);
                 vcs.lock().unwrap().push(vc);
+                forge_all.lock().unwrap().push(fstats);
                 *c10_runs.lock().unwrap() += c10n;
                 distinct.lock().unwrap().extend(local_distinct);
             });
@@ -187,6 +208,17 @@ fn cmd_pipeline(args: &[String]) -> i32 {
         tot.drift_ops += s.drift_ops;
         tot.drift_ids += s.drift_ids;
         tot.den0_checked += s.den0_checked;
+    }
+    let mut ftot = pipeline::ForgeStats::default();
+    for f in forge_all.lock().unwrap().iter() {
+        ftot.programs += f.programs;
+        ftot.forgeries += f.forgeries;
+        ftot.rejected += f.rejected;
+        ftot.harmless_skipped += f.harmless_skipped;
+        ftot.accepted_harmful += f.accepted_harmful;
+        for (k, v) in &f.classes {
+            *ftot.classes.entry(k.clone()).or_default() += v;
+        }
     }
     let mut vtot = VerdictCmp::default();
     for v in vcs.lock().unwrap().iter() {
@@ -218,6 +250,8 @@ fn cmd_pipeline(args: &[String]) -> i32 {
             "model_drift_unexplained": tot.drift_ops, "model_drift_const_folding": tot.drift_ids, "den0_checked": tot.den0_checked,
             "c10_proofs": *c10_runs.lock().unwrap(), "distinct_nontrivial": distinct.lock().unwrap().len(),
         },
+        "forge": {"programs": ftot.programs, "forgeries": ftot.forgeries, "rejected": ftot.rejected, "harmless_skipped": ftot.harmless_skipped,
+                  "accepted": ftot.accepted_harmful, "classes": ftot.classes},
         "model_vs_code": {"counts": vtot.counts, "disagreement_examples": vtot.examples},
         "errors": *errors.lock().unwrap(),
         "findings": groups,
